@@ -63,6 +63,11 @@ def mstep (s : MSt) : MOp → MSt × Bool
     else if s.inCtx || !impl then (s, false)
     else ({ s with mode := false, handle := none, obj := (openFile s.disk).orElse (fun _ => s.obj) }, false)
 
+/-- `Tdf.copy(path)`: the file's bytes go to a new path and a NEW object for that path is returned
+    (basictdf.py: `shutil.copyfile` + `Tdf(new_file_path)`): read-only mode, outside any context, nothing
+    remembered — whatever state the original object is in -/
+def copyObj (s : MSt) : MSt := MSt.init s.disk
+
 def mrun (s : MSt) : List MOp → MSt
   | [] => s
   | op :: ops => mrun (mstep s op).1 ops
